@@ -457,6 +457,25 @@ Definition proto_check (c : proto_case) : bool :=
     (n_down n || (negb (o_closed (pc_obs c)) && negb (o_reject (pc_obs c)))) && node_agrees n evs (pc_obs c)
   end.
 
+(* ---------- stream backends: where datagram boundaries come from ---------- *)
+
+(* proto_step sees whole datagrams.  On stream backends (TCP, ExternalBackend over a net.Conn)
+   pkg/framer cuts them out of the byte stream: two header bytes, little endian, announce the
+   length.  Here that length is a number in N, never wrapped; the implementation computes it in
+   Go integers, and this model is only right if that arithmetic agrees with N on ALL 65536 header
+   values (an addition carried out in uint16 would wrap 65534/65535 to 0/1 and slice out of
+   range).  That agreement is not proved: the C07 harness checks it exhaustively on the real
+   framer (all 65536 headers x no / short / sufficient tail: ready iff the announced bytes have
+   arrived, exactly those bytes are returned, the rest is left, no panic) and at the boundaries
+   over real stream sessions. *)
+Definition frame_pop (b : bytes) : option (bytes * bytes) :=
+  match b with
+  | lo :: hi :: r =>
+    let n := N.to_nat (lo + 256 * hi) in
+    if Nat.leb n (List.length r) then Some (firstn n r, skipn n r) else None
+  | _ => None
+  end.
+
 (* the C07 harness emits both kinds of cases into one stream *)
 Inductive c07_case := CJson (c : pjson_case) | CProto (c : proto_case).
 Definition c07_check (c : c07_case) : bool :=
